@@ -45,6 +45,8 @@ struct Q {
     sub: Option<(Vec<S>, Vec<S>)>,
     /// the reference paths must keep their relative order (false: peer indices were shifted)
     sub_ordered: bool,
+    /// how often the implementation is called (fresh HashMaps each time)
+    runs: usize,
 }
 
 fn hopf(exp: u8, ing: u16, eg: u16, mac: [u8; 6]) -> SegmentHopField {
@@ -375,7 +377,9 @@ fn obs(p: &ScionPath) -> PathObs {
               nsegs, peering }
 }
 
-struct Out { panic: bool, stable: bool, paths: Vec<PathObs>, bytes0: Vec<u8>, ms: u128, sub: Option<Vec<PathObs>> }
+struct Out { panic: bool, stable: bool, paths: Vec<PathObs>, bytes0: Vec<u8>, ms: u128, sub: Option<Vec<PathObs>>,
+             /// results of repeated calls that differ from `paths`
+             alt: Vec<Vec<PathObs>> }
 
 fn run(q: &Q) -> Out {
     let cores: Vec<UnsignedPathSegment> = q.cores.iter().map(|s| s.seg()).collect();
@@ -383,7 +387,8 @@ fn run(q: &Q) -> Out {
     let (src, dst) = (IsdAsn::from_u64(q.src), IsdAsn::from_u64(q.dst));
     let mut first: Option<(Vec<PathObs>, Vec<u8>)> = None;
     let (mut stable, mut panic, mut ms) = (true, false, 0u128);
-    for _ in 0..3 {
+    let mut alt: Vec<Vec<PathObs>> = vec![];
+    for _ in 0..q.runs.max(1) {
         let (c, n) = (cores.clone(), ncs.clone());
         let t0 = Instant::now();
         let r = catch(AssertUnwindSafe(|| combine(src, dst, c, n)));
@@ -401,6 +406,8 @@ fn run(q: &Q) -> Out {
                     Some((f, fb)) => {
                         if f.len() != o.len() || f.iter().zip(o.iter()).any(|(a, b)| a.text != b.text) || *fb != b0 {
                             stable = false;
+                            let same = |x: &Vec<PathObs>| x.len() == o.len() && x.iter().zip(o.iter()).all(|(a, b)| a.text == b.text);
+                            if !alt.iter().any(same) { alt.push(o.iter().map(|p| PathObs { text: p.text.clone(), nsegs: p.nsegs, peering: p.peering }).collect()); }
                             if std::env::var("HC_DEBUG_UNSTABLE").is_ok() {
                                 eprintln!("UNSTABLE src={} dst={}", fmt_ia(q.src), fmt_ia(q.dst));
                                 for (k, a) in f.iter().enumerate() { eprintln!("  run1[{k}] {}", a.text); }
@@ -418,9 +425,9 @@ fn run(q: &Q) -> Out {
         let n: Vec<UnsignedPathSegment> = sn.iter().map(|s| s.seg()).collect();
         catch(AssertUnwindSafe(|| combine(src, dst, c, n))).map(|ps| ps.iter().map(obs).collect::<Vec<_>>())
     });
-    if panic { return Out { panic, stable, paths: vec![], bytes0: vec![], ms, sub }; }
+    if panic { return Out { panic, stable, paths: vec![], bytes0: vec![], ms, sub, alt: vec![] }; }
     let (paths, bytes0) = first.unwrap();
-    Out { panic, stable, paths, bytes0, ms, sub }
+    Out { panic, stable, paths, bytes0, ms, sub, alt }
 }
 
 fn case_text(q: &Q, o: &Out) -> String {
@@ -430,12 +437,13 @@ fn case_text(q: &Q, o: &Out) -> String {
     for k in 0..ids.len().saturating_sub(1).min(4) {
         assert_eq!(ids[k].cmp(&ids[k + 1]), segs[k].id().cmp(&segs[k + 1].id()), "SegmentID order");
     }
-    format!("(mkCase {} {} {} {} {} {} {} {} {} {} {} {})", q.src, q.dst,
+    format!("(mkCase {} {} {} {} {} {} {} {} {} {} {} {} {})", q.src, q.dst,
             coq_list(q.cores.iter().map(c_seg)), coq_list(q.ncs.iter().map(c_seg)),
             coq_list(ids.iter().map(|b| dec(b))), coq_bool(q.wf), coq_bool(o.panic), coq_bool(o.stable),
             coq_list(o.paths.iter().map(|p| p.text.clone())), coq_bytes(&o.bytes0),
             if o.sub.is_none() { 0 } else if q.sub_ordered { 1 } else { 2 },
-            coq_list(o.sub.as_ref().map(|v| v.iter().map(|p| p.text.clone()).collect::<Vec<_>>()).unwrap_or_default()))
+            coq_list(o.sub.as_ref().map(|v| v.iter().map(|p| p.text.clone()).collect::<Vec<_>>()).unwrap_or_default()),
+            coq_list(o.alt.iter().map(|v| coq_list(v.iter().map(|p| p.text.clone())))))
 }
 
 // ---------------------------------------------------------------------------------------------
@@ -455,8 +463,40 @@ fn topo_query(t: &Topo, src: u64, dst: u64, variant: u64, rng: &mut Rng) -> Q {
     let (stream, vname) = match variant {
         0 => ("c04", "plain"), 1 => ("c04", "shuffled"), 2 => ("c04", "dup+shuffled"), 3 => ("c04", "all_noncores"),
         5 => ("c04", "subset"),
+        6 => ("refresh", "multi_refresh"),
         _ => ("refresh", "refreshed_segment"),
     };
+    let mut runs = 3;
+    if variant == 6 {
+        // 3..=6 instances of one or two segments (any position: up, core, down) with pairwise
+        // different timestamps / hop expiries; half of the copies differ only in one hop's ExpTime.
+        // De-duplication must keep the latest expiry whatever order the HashMap yields: 8 calls.
+        for _ in 0..rng.range(1, 2) {
+            let (nc, nn) = (cores.len(), ncs.len());
+            if nc + nn == 0 { break; }
+            let k = rng.below((nc + nn) as u64) as usize;
+            let base = if k < nc { cores[k].clone() } else { ncs[k - nc].clone() };
+            let copies = rng.range(2, 5);
+            for j in 0..copies {
+                let mut s = base.clone();
+                if rng.chance(1, 2) {
+                    s.ts = base.ts.wrapping_add(400 * (j as u32 + 1) + rng.below(300) as u32);
+                    s.sid = rng.below(65536) as u16;
+                    for e in s.e.iter_mut() {
+                        e.hop_entry.hop_field.expiration_units = rng.range(5, 70) as u8;
+                        for p in e.peer_entries.iter_mut() { p.hop_field.expiration_units = rng.range(5, 70) as u8; }
+                    }
+                } else if !s.e.is_empty() {
+                    let i = rng.below(s.e.len() as u64) as usize;
+                    s.e[i].hop_entry.hop_field.expiration_units = (3 + 9 * j as u8 + rng.below(8) as u8) % 80;
+                    for p in s.e[i].peer_entries.iter_mut() { p.hop_field.expiration_units = (1 + 11 * j as u8) % 80; }
+                }
+                if k < nc { cores.push(s); } else { ncs.push(s); }
+            }
+        }
+        wf = false;
+        runs = 8;
+    }
     if variant == 5 {
         cores.retain(|_| !rng.chance(1, 3));
         ncs.retain(|_| !rng.chance(1, 3));
@@ -484,9 +524,10 @@ fn topo_query(t: &Topo, src: u64, dst: u64, variant: u64, rng: &mut Rng) -> Q {
             wf = false;
         }
     }
+    if variant == 4 { runs = 8; }
     if variant >= 1 { rng.shuffle(&mut cores); rng.shuffle(&mut ncs); }
     Q { stream: stream.into(), desc: format!("{}/{}{}", t.name, vname, bneck), src, dst, cores, ncs,
-        ases: t.ases.iter().map(|a| a.0).collect(), wf, sub: None, sub_ordered: true }
+        ases: t.ases.iter().map(|a| a.0).collect(), wf, sub: None, sub_ordered: true, runs }
 }
 
 /// Every AS MTU, every link (hop ingress) MTU and every peering-link MTU of the query is drawn
@@ -698,7 +739,7 @@ fn soup(rng: &mut Rng, k: u64) -> Q {
     }
     let src = *rng.pick(&ases);
     let dst = *rng.pick(&ases);
-    Q { stream: "soup".into(), desc: format!("soup/{}as", na), src, dst, cores, ncs, ases, wf: false, sub: None, sub_ordered: true }
+    Q { stream: "soup".into(), desc: format!("soup/{}as", na), src, dst, cores, ncs, ases, wf: false, sub: None, sub_ordered: true, runs: 3 }
 }
 
 fn chain(rng: &mut Rng, first: u64, isd: u64, base: u64, n: usize) -> Vec<AsEntry> {
@@ -716,7 +757,7 @@ fn directed(rng: &mut Rng) -> Vec<Q> {
     let (a, b, c, d) = (ia(1, 1), ia(1, 2), ia(1, 3), ia(1, 4));
     let mut v: Vec<Q> = vec![];
     let mut push = |name: &str, src: u64, dst: u64, cores: Vec<S>, ncs: Vec<S>| {
-        v.push(Q { stream: "directed".into(), desc: name.into(), src, dst, cores, ncs, ases: vec![a, b, c, d], wf: false, sub: None, sub_ordered: true });
+        v.push(Q { stream: "directed".into(), desc: name.into(), src, dst, cores, ncs, ases: vec![a, b, c, d], wf: false, sub: None, sub_ordered: true, runs: 3 });
     };
     let sg = |e: Vec<AsEntry>| S { ts: TS0, sid: 0x1234, e };
     // d0 / d1: all interface ids zero
@@ -936,7 +977,7 @@ fn directed_multipeer(rng: &mut Rng) -> Vec<Q> {
                     if (ki + oi + side as usize) % 3 != ["through", "on_peers", "mixed"].iter().position(|r| *r == rq).unwrap() { continue; }
                     v.push(Q { stream: "directed".into(), desc: format!("d13:multipeer_{kind}_{oname}_{sname}_{rq}"), src, dst,
                                cores: vec![], ncs: vec![up.clone(), down.clone(), upx.clone(), downy.clone()],
-                               ases: vec![c, x, y, gx, gy], wf: false, sub: None, sub_ordered: true });
+                               ases: vec![c, x, y, gx, gy], wf: false, sub: None, sub_ordered: true, runs: 3 });
                 }
             }
         }
@@ -1101,7 +1142,7 @@ fn main() {
         None
     };
     let pick_variant = |rng: &mut Rng| -> u64 {
-        match rng.below(100) { 0..=29 => 0, 30..=47 => 1, 48..=65 => 2, 66..=79 => 3, 80..=89 => 5, _ => 4 }
+        match rng.below(100) { 0..=27 => 0, 28..=43 => 1, 44..=59 => 2, 60..=71 => 3, 72..=79 => 5, 80..=91 => 6, _ => 4 }
     };
 
     let mut attempts = 0usize;
@@ -1122,7 +1163,10 @@ fn main() {
             if q.cores.len() + q.ncs.len() > lim.max_segs { d.sum.count("dropped.segs"); continue; }
             let o = run(&q);
             if o.paths.len() > lim.max_paths_c04 { d.sum.count("dropped.paths"); continue; }
-            d.sum.count(&format!("variant.{}", q.desc.rsplit('/').next().unwrap_or("")));
+            let vn = q.desc.rsplit('/').next().unwrap_or("");
+            d.sum.count(&format!("variant.{}", vn.split(|c| c == ':' || c == '+' && false).next().unwrap_or("").split("+multipeer").next().unwrap_or("")));
+            if vn.contains(":bneck") { d.sum.count(&format!("bottleneck.{}", vn.split(":bneck_").nth(1).unwrap_or("").split('+').next().unwrap_or(""))); }
+            if vn.contains("+multipeer") { d.sum.count("variant.+multipeer"); }
             d.emit(&q, &o);
         }
     } else {
